@@ -112,3 +112,47 @@ def hexs(xs):
 
 def parse_floats(line):
     return [float.fromhex(t) for t in line.split()]
+
+
+def ast_pins(repo, targets):
+    """Hash of the normalised AST (no docstrings, no comments, no positions) of each hand-modelled
+    function.  targets: list of (relative file, 'Class.method' or 'function')."""
+    import ast
+    import hashlib
+    out = {}
+    for rel, qual in targets:
+        try:
+            tree = ast.parse(open(os.path.join(repo, rel)).read())
+        except (OSError, SyntaxError) as e:
+            out["%s:%s" % (rel, qual)] = "unreadable: %s" % e
+            continue
+        node = tree
+        for part in qual.split("."):
+            node = next((n for n in getattr(node, "body", []) if isinstance(n, (ast.ClassDef, ast.FunctionDef)) and n.name == part), None)
+            if node is None:
+                break
+        if node is None:
+            out["%s:%s" % (rel, qual)] = "missing"
+            continue
+        for n in ast.walk(node):
+            if isinstance(n, (ast.FunctionDef, ast.ClassDef)) and n.body and isinstance(n.body[0], ast.Expr) \
+                    and isinstance(getattr(n.body[0], "value", None), ast.Constant) and isinstance(n.body[0].value.value, str):
+                n.body = n.body[1:] or [ast.Pass()]
+        out["%s:%s" % (rel, qual)] = hashlib.sha256(ast.dump(node, include_attributes=False).encode()).hexdigest()[:16]
+    return out
+
+
+def pins_changed(ctx, pid, targets):
+    """Compare the AST pins of the hand-modelled functions with harness/pins/<pid>.json.  A changed pin
+    is not a failure: the caller escalates the correspondence and runs the search (DESIGN 2.1), and the
+    re-validation is recorded in the evidence."""
+    import json
+    now = ast_pins(common.REPO, targets)
+    path = os.path.join(common.ROOT, "harness", "pins", pid + ".json")
+    try:
+        old = json.load(open(path))
+    except (OSError, ValueError):
+        old = {}
+    changed = sorted(k for k in now if old.get(k) != now[k])
+    ctx.extra["ast_pins"] = {"current": now, "changed_since_model_was_written": changed}
+    return changed
